@@ -96,6 +96,7 @@ type Pool struct {
 	Stats      *SolverStats
 	CrossKinds []string
 	Profile    bool
+	Primary    string
 
 	mu      sync.Mutex
 	cond    *sync.Cond
@@ -166,7 +167,11 @@ func (p *Pool) give(j *job) {
 }
 
 func (p *Pool) worker() {
-	solver, err := StartSolver("z3", p.Timeout, p.Stats)
+	primary := p.Primary
+	if primary == "" {
+		primary = "z3-new"
+	}
+	solver, err := StartSolver(primary, p.Timeout, p.Stats)
 	if err != nil {
 		panic(err)
 	}
@@ -212,6 +217,14 @@ func (p *Pool) worker() {
 					ns[i].hasAlt = false
 					d.hasAlt = false
 					p.give(&job{harness: j.harness, script: ns, frozen: i + 1})
+					return
+				}
+				if d.kind == 'c' && d.more {
+					ns := append([]decision(nil), x.script[:i+1]...)
+					ns[i].value = d.value + 1
+					ns[i].more = int(ns[i].value) < len(d.tried)-1
+					d.more = false
+					p.give(&job{harness: j.harness, script: ns, frozen: i})
 					return
 				}
 				if d.kind == 'p' && d.more {
